@@ -428,10 +428,74 @@ func C01(c *vk.Ctx) {
 	hubCampaign(c, cfgsC01(c), c.Pick(1600, 40000), allDownEdges, 60, predC01)
 	c.Add("traces_validated_against_impl", int64(c01LoadDuringFailingPass(c)))
 	c.Add("traces_validated_against_impl", int64(c01SiblingLocations(c)))
+	c.Add("traces_validated_against_impl", int64(c01PresentedDuringRefresh(c)))
 	c.Set("spec", "Revocation.tla: Sound (action property) + Refines/Complete (invariants), complete graph per configuration; every listed property of the module is checked by TLC before the graph is replayed")
 	c.Set("rule", "a case is one edge (state, action incl. the documents served) of a configuration's Revocation graph executed on a real validator; distinct = distinct (cfg, state, action); the violation predicate is: ghost says listed-in-force AND real verdict = accept")
 	c.Assume("document bytes inside a shape class (size/position/serial width/entry extensions/encoding) are seeded samples; the 'big' size class (20 000 entries) is exercised in the thorough tier only")
 	c.Assume("connection-refused origins are sampled sparsely (each costs the loader's 2 s retry loop)")
+}
+
+// c01PresentedDuringRefresh: the certificate is presented while the refresh that will bring the list naming it is still
+// transferring (it is accepted then: the list in force does not name it), and again when the pass has ended. The second time the
+// list in force names it. (What a lookup learnt under the previous list is not what holds under the next one.)
+func c01PresentedDuringRefresh(c *vk.Ctx) int {
+	n := 0
+	for round := 0; round < c.Pick(4, 24) && c.Violations() <= 6; round++ {
+		disk := round%2 == 0
+		org := origin.New()
+		ca := pki.NewCA(pki.CAOpts{Name: "Refreshing CA", Serial: 1400})
+		serial := big.NewInt(int64(1401 + round))
+		leaf := ca.Leaf(pki.LeafOpts{CN: "soon revoked", Serial: serial, CDP: []string{org.URL + "/cdp/refreshing.crl"}})
+		chain := pki.Chain(leaf.Cert, ca)
+		org.SetBody("/cdp/refreshing.crl", ca.SimpleCRL(1, 990002))
+		w, err := world.New(world.Cfg{Mode: "crl_only", Storage: backendName(disk), Sig: []string{"verify", "none"}[(round/2)%2], Fetch: "fetch_actively", Interval: "1h"})
+		if err != nil {
+			c.Infra("world: %v", err)
+		}
+		if err := w.Provision(); err != nil {
+			c.Infra("provision: %v", err)
+		}
+		r0 := w.HandshakeTimeout(chain, 60*time.Second)
+		release := make(chan struct{})
+		arrived := make(chan struct{}, 8)
+		sh := Shape{Size: "s300", Pos: []string{"first", "middle", "last"}[round%3], Width: "w8", Ext: "none", Enc: "der"}
+		org.Set("/cdp/refreshing.crl", origin.Behaviour{Kind: "gated", Body: BuildCRL(CRLSpec{Signer: ca, Listed: []*big.Int{serial}, Number: 2}, sh), Gate: func() {
+			arrived <- struct{}{}
+			select {
+			case <-release:
+			case <-time.After(60 * time.Second):
+			}
+		}})
+		passDone := make(chan struct{})
+		go func() { defer close(passDone); w.RefreshAll() }()
+		select {
+		case <-arrived:
+		case <-time.After(30 * time.Second):
+			c.Drift("presented-during-refresh:transfer-never-started")
+			close(release)
+			w.Destroy()
+			org.Close()
+			continue
+		}
+		during := w.HandshakeTimeout(chain, 60*time.Second)
+		close(release)
+		select {
+		case <-passDone:
+		case <-time.After(120 * time.Second):
+			c.Drift("presented-during-refresh:pass-never-returned")
+		}
+		after := w.HandshakeTimeout(chain, 60*time.Second)
+		n++
+		c.Eval(fmt.Sprintf("presented-during-refresh|%s|%d", backendName(disk), round%3))
+		if r0.Verdict == "accept" && after.Verdict == "accept" {
+			c.Violation(fmt.Sprintf("%s:listed-certificate-accepted:presented-during-the-refresh-that-lists-it", backendName(disk)),
+				"the certificate was presented while the refresh that brings the list naming it was transferring (accepted, rightly) and again after the pass had ended: the list in force names it, and it was accepted again",
+				map[string]any{"backend": backendName(disk), "before": r0, "during": during, "after": after, "signature_validation_mode": w.Cfg.Sig})
+		}
+		w.Destroy()
+		org.Close()
+	}
+	return n
 }
 
 // c01SiblingLocations: "taken from the certificate's own distribution points" - two certificates of one CA name distribution points
